@@ -49,6 +49,27 @@ Proof.
 Qed.
 Print Assumptions C09_send_labels_schedule_independent.
 
+(** Label uniqueness, reduced to the sequential reading: if no two sends to one peer share a label when the program
+    is read sequentially ([seq_sends_unique], an executable check that the harness evaluates in Coq on logged call
+    trees with the real hop values), then in EVERY pair of executions of a wf program two send events at distinct
+    structural positions to the same peer carry different labels.
+    (Not proved: that the sequential reading is duplicate-free for every program; this needs `_hop` injective and
+    sparse and one send per peer and counter value inside each protocol.) *)
+Theorem C09_labels_unique :
+  forall (hop : Z -> nat -> Z) (c0 : pcT) (prog : body) (s1 s2 : list (option nat)) (p1 p2 : path) (peer : nat) (v1 v2 : Z),
+    wf_body prog = true -> seq_sends_unique hop c0 prog = true ->
+    In (p1, EvSend peer v1) (trace (run hop c0 prog s1)) ->
+    In (p2, EvSend peer v2) (trace (run hop c0 prog s2)) ->
+    p1 <> p2 -> v1 <> v2.
+Proof. exact labels_unique. Qed.
+Print Assumptions C09_labels_unique.
+
+Example C09_labels_unique_nonvacuous :
+  wf_body fc08_fixed = true /\ seq_sends_unique hop_ex (0%Z, 0) fc08_fixed = true /\
+  length (sends hop_ex (0%Z, 0) fc08_fixed []) = 3 /\
+  seq_sends_unique (fun _ _ => 0%Z) (0%Z, 0) fc08_fixed = false.
+Proof. vm_compute. repeat split; reflexivity. Qed.
+
 (** Uniqueness is necessary: with a repeated label the machine raises (delivered twice) or orphans a payload
     (received twice). *)
 Example C09_duplicate_refuted :
